@@ -26,6 +26,12 @@ func verifCheckOutcome(ref *verifRef, streamed []byte, srcErrored bool, off int,
 	if err == nil {
 		vnd.Cover("completed")
 		vnd.Assert(matches, "consumer observed completion although the source content differs from the digest's content")
+		if verifLastScript != nil {
+			// "complete content": what the source HOLDS, whether or not the buffer chose to read it
+			full, fails := verifFullContent(verifLastScript)
+			vnd.Assert(!fails, "consumer observed completion although the source fails before its end of stream")
+			vnd.Assert(verifBytesEqual(full, ref.data), "consumer observed completion although the complete content of the source differs from the digest's content (unread data)")
+		}
 		vnd.Assert(off >= 0 && off <= ref.n, "completed read at an offset outside the object")
 		if off >= 0 && off <= ref.n {
 			vnd.Assert(verifBytesEqual(got, ref.data[off:]), "consumer completed with bytes that are not the object's suffix at the requested offset")
